@@ -842,7 +842,29 @@ func init() {
 			}
 			in = lcw.BuildInput(ws)
 		}
-		if r.Chance(1, 8) {
+		staleLinks := r.Chance(1, 4)
+		if staleLinks { // export links that exist but point elsewhere than the export now wants (or at nothing, or are no links)
+			for _, l := range ws.Layers {
+				if r.Chance(2, 3) {
+					p := in.Cfg.Exports + "/" + r.Pick([]string{"packages", "generated"}) + "/" + l.Name
+					switch r.Intn(4) {
+					case 0:
+						ws.Foreign = append(ws.Foreign, lcw.Entry{Path: lcw.B(p), Kind: "l", Data: "/somewhere/else"})
+					case 1:
+						ws.Foreign = append(ws.Foreign, lcw.Entry{Path: lcw.B(p), Kind: "l", Data: lcw.B(in.Cfg.Layers + "/" + l.Name + "/build/var/cache/binpkgs")})
+					case 2:
+						ws.Foreign = append(ws.Foreign, lcw.Entry{Path: lcw.B(p), Kind: "l", Data: lcw.B(in.Cfg.Layers + "/" + l.Name + "/packages.old")})
+					default:
+						ws.Foreign = append(ws.Foreign, lcw.Entry{Path: lcw.B(p), Kind: "f", Data: "foreign"})
+					}
+				}
+			}
+			for i := range ws.Layers {
+				ws.Layers[i].HasPackages, ws.Layers[i].HasGen = true, r.Chance(1, 2)
+			}
+			in = lcw.BuildInput(ws)
+		}
+		if r.Chance(1, 8) && !staleLinks {
 			in.FS = in.FS[:1]
 			s := step("init", "", "", false)
 			s.Env.Pretend = true
@@ -855,6 +877,9 @@ func init() {
 		k := r.Intn(10)
 		if leftovers && r.Chance(3, 4) {
 			k = 1 + r.Intn(2) // the commands that rewrite layerconfigs
+		}
+		if staleLinks && r.Chance(3, 4) {
+			k = []int{5, 5, 5, 1, 3, 9}[r.Intn(6)] // the commands that make or remove export links
 		}
 		switch k {
 		case 0:
